@@ -28,7 +28,7 @@ MAXLEN = 5
 DEPTH = {"quick": 3, "thorough": 4}
 NSHARDS = 64
 HYP_WORKERS = 16
-HYP_CASES = {"quick": 500, "thorough": 6250}     # per worker
+HYP_CASES = {"quick": 320, "thorough": 6250}     # per worker
 SCRATCH_EVERY = 64
 PAD = 8
 SENTINELS = (("AA/BB", b"\xAA" * PAD, b"\xBB" * PAD), ("FF/FF", b"\xFF" * PAD, b"\xFF" * PAD))
